@@ -15,7 +15,7 @@ From SqlModel.Inst Require Import Cur PassTabDefs C11GroupDefs C11Group.
 (* a case-safe callback expression cannot tell related tokens apart (nor raise on one only) *)
 Theorem C11g_callback_case_safe : forall e, case_safe e = true ->
   forall t t', orel crel t t' -> eval_px e t = eval_px e t'.
-Proof. exact (case_safe_px CR CR CR_upper). Qed.
+Proof. exact (case_safe_px CR CR CR_rl). Qed.
 Print Assumptions C11g_callback_case_safe.
 
 (* all 33 boolean callbacks generated from grouping.py are case safe; of the 11 post callbacks only
@@ -32,19 +32,19 @@ Print Assumptions C11g_operator_guarded.
 (* ---- the drivers, once -------------------------------------------------------------------------------- *)
 Theorem C11g_group_driver : forall p, pinvG crel p ->
   forall n n', crel n n' -> rres crel (group_driver p n) (group_driver p n').
-Proof. exact (group_driver_rel CR CR CR_upper Hmk_crel). Qed.
+Proof. exact (group_driver_rel CR CR CR_rl Hmk_crel). Qed.
 Theorem C11g_group_driver_flat : forall p, pinvG crel p ->
   forall n n', crel n n' -> rres crel (group_driver_flat p n) (group_driver_flat p n').
-Proof. exact (group_driver_flat_rel CR CR CR_upper Hmk_crel). Qed.
+Proof. exact (group_driver_flat_rel CR CR CR_rl Hmk_crel). Qed.
 Theorem C11g_group_loop : forall p, pinvG crel p -> forall snap snap', Forall2 crel snap snap' ->
   forall idx s s', srelG crel s s' -> rres (srelG crel) (group_loop p snap idx s) (group_loop p snap' idx s').
-Proof. exact (group_loop_rel CR CR CR_upper Hmk_crel). Qed.
+Proof. exact (group_loop_rel CR CR CR_rl Hmk_crel). Qed.
 Theorem C11g_group_matching : forall c n n', crel n n' -> rres crel (group_matching c n) (group_matching c n').
-Proof. exact (group_matching_rel CR CR CR_upper Hmk_crel). Qed.
+Proof. exact (group_matching_rel CR CR CR_rl Hmk_crel). Qed.
 Theorem C11g_gparams_of : forall c m vp vn po ext,
   case_safe m = true -> case_safe vp = true -> case_safe vn = true -> post_case_safe po = true ->
   pinvG crel (gparams_of c m vp vn po ext).
-Proof. exact (pinv_gparams_of CR CR CR_upper). Qed.
+Proof. exact (pinv_gparams_of CR CR CR_rl). Qed.
 Print Assumptions C11g_group_driver.
 Print Assumptions C11g_group_loop.
 Print Assumptions C11g_group_matching.
@@ -159,3 +159,41 @@ Print Assumptions C11_parse_case_text_full.
    'select 1 GO select 2' / '... go ...') now parse to related trees *)
 Definition C11_as_case_witness_fixed := C11Group.C11_as_case_witness_fixed.
 Definition C11_go_case_witness_fixed := C11Group.C11_go_case_witness_fixed.
+
+(* ==== the SPELLING of keyword tokens: letter case AND the white space inside compound keywords =============
+   (ORDER BY, GROUP BY, UNION ALL, END IF, END LOOP, LEFT OUTER JOIN, CREATE OR REPLACE, ...): UNBOUNDED, no guard.
+   wrel: same structure, classes and token types; all leaves EQUAL except keyword leaves, whose values agree after
+   upper-casing and collapsing every run of white space (Inst/C11KwSpell.v). *)
+From SqlModel.Inst Require C11KwSpell.
+Theorem C11_group_kwspell : forall n n', C11KwSpell.wrel n n' -> rres C11KwSpell.wrel (group n) (group n').
+Proof. exact C11KwSpell.group_wrel. Qed.
+Theorem C11_group_upto_kwspell : forall k n n',
+  C11KwSpell.wrel n n' -> rres C11KwSpell.wrel (group_upto k n) (group_upto k n').
+Proof. exact C11KwSpell.group_upto_wrel. Qed.
+Theorem C11_get_type_kwspell : forall n n', C11KwSpell.wrel n n' -> get_type n = get_type n'.
+Proof. exact C11KwSpell.get_type_wrel. Qed.
+Theorem C11_split_pointwise_kwspell : forall l l',
+  Forall2 C11KwSpell.tok_wrel l l' -> Forall2 (Forall2 C11KwSpell.tok_wrel) (cur_process l) (cur_process l').
+Proof. exact C11KwSpell.split_pointwise_wrel. Qed.
+Theorem C11_parse_upto_kwspell : forall k t t' l l',
+  cur_lex t = Ok l -> cur_lex t' = Ok l' -> Forall2 C11KwSpell.tok_wrel l l' ->
+  rres (Forall2 C11KwSpell.wrel) (cur_parse_upto k t) (cur_parse_upto k t').
+Proof. exact C11KwSpell.parse_wrel. Qed.
+Theorem C11_parse_kwspell : forall t t' l l',
+  cur_lex t = Ok l -> cur_lex t' = Ok l' -> Forall2 C11KwSpell.tok_wrel l l' ->
+  forall ss, cur_parse t = Ok ss ->
+  exists ss', cur_parse t' = Ok ss' /\ Forall2 C11KwSpell.wrel ss ss' /\
+              Forall2 (fun s s' => get_type s = get_type s') ss ss'.
+Proof. exact C11KwSpell.C11_parse_kwspell. Qed.
+Theorem C11_parse_kwspell_err : forall t t' l l',
+  cur_lex t = Ok l -> cur_lex t' = Ok l' -> Forall2 C11KwSpell.tok_wrel l l' ->
+  forall e, cur_parse t = Err e -> cur_parse t' = Err e.
+Proof. exact C11KwSpell.C11_parse_kwspell_err. Qed.
+(* non-vacuity: create<2 blanks>or<LF>replace / ORDER<blank,TAB>BY / union<LF>ALL / END<LF>If against the single-blank
+   spellings: related token streams that are not equal, and what the theorem predicts is what the model computes *)
+Definition C11_kwspell_ex_lex := C11KwSpell.ex_ws_lex.
+Definition C11_kwspell_ex_parse := C11KwSpell.ex_ws_parse.
+Print Assumptions C11_group_kwspell.
+Print Assumptions C11_split_pointwise_kwspell.
+Print Assumptions C11_parse_upto_kwspell.
+Print Assumptions C11_parse_kwspell.
